@@ -24,6 +24,7 @@ type PropConfig struct {
 	ExtraUnits []string   `json:"extra_units"` // regexps over function keys: verified even without a contract (safety sweep)
 	SkipUnits  []string   `json:"skip_units"`
 	AllUnits   bool       `json:"all_units"` // every function under contract is relevant (C07)
+	Tmode      bool       `json:"tmode"`     // thread-modular mode: guarded fields are havocked at every lock acquisition
 	Residue    string     `json:"residue"`
 	Replay     string     `json:"replay"`
 	// Bounded: drivers run in the thorough tier only, labelled bounded in the evidence, never counted as proved
@@ -278,6 +279,9 @@ func runCheck(repo, root, prop, tier string, rebase, verbose bool) int {
 	for _, tags := range cfg.Tags {
 		tagStr := strings.Join(tags, ",")
 		prog, specs := loadAll(repo, filepath.Join(root, "prelude"), tagStr)
+		if !cfg.Tmode {
+			specs = specs.SView()
+		}
 		contractFiles = specs.Files
 		// select units
 		var keys []string
@@ -347,7 +351,7 @@ func runCheck(repo, root, prop, tier string, rebase, verbose bool) int {
 			go func(key string) {
 				defer wg.Done()
 				defer func() { <-sem }()
-				ur := verifyOne(prog, specs, key, tagStr, d, known, prop, len(cfg.ExtraUnits) > 0 && prop != "C07" && prop != "C08")
+				ur := verifyOne(prog, specs, key, tagStr, d, known, prop, len(cfg.ExtraUnits) > 0 && prop != "C07" && prop != "C08" && !cfg.Tmode, cfg.Tmode)
 				mu.Lock()
 				runs = append(runs, ur)
 				mu.Unlock()
@@ -393,6 +397,7 @@ func verifyOne(prog *Program, specs *Specs, key, tags string, d *Discharger, kno
 	if len(sweep) > 0 && sweep[0] {
 		extra = prop
 	}
+	tmode := len(sweep) > 1 && sweep[1]
 	t0 := time.Now()
 	f := prog.ByKey[key]
 	ct := specs.Funcs[key]
@@ -403,7 +408,7 @@ func verifyOne(prog *Program, specs *Specs, key, tags string, d *Discharger, kno
 				ur.res = &UnitResult{Key: key, Aborted: map[string]int{fmt.Sprintf("engine panic: %v", r): 1}}
 			}
 		}()
-		ur.res = VerifyUnitKnown(prog, specs, f, ct, UnitOpts{ExtraProp: extra}, known)
+		ur.res = VerifyUnitKnown(prog, specs, f, ct, UnitOpts{ExtraProp: extra, Tmode: tmode}, known)
 		ur.insts = d.DischargeUnit(ur.res)
 		// vacuity probe: with "assert false" at every exit, at least one exit must be reachable.
 		// Only assumptions can make a unit vacuous: skip the probe when there are none.
@@ -411,7 +416,7 @@ func verifyOne(prog *Program, specs *Specs, key, tags string, d *Discharger, kno
 			ur.probe = "n/a (no requires, no type invariant)"
 			return
 		}
-		pr := VerifyUnitKnown(prog, specs, f, ct, UnitOpts{ProbeExit: true}, nil)
+		pr := VerifyUnitKnown(prog, specs, f, ct, UnitOpts{ProbeExit: true, Tmode: tmode}, nil)
 		pd := NewDischarger(1500, false)
 		pd.NoRace = true
 		pis := pd.DischargeUnit(pr)
